@@ -146,6 +146,34 @@ theorem run_spec (c : Codec) (ops : List Op) (s : Sys) (ref : Store)
         · exact Or.inr ⟨m, rfl, fun a => (hm' a).symm⟩
         · intro a; rw [hm' a, hm a, hr a]
 
+theorem specStore_append (s : Store) (o1 o2 : List Op) :
+    specStore s (o1 ++ o2) = specStore (specStore s o1) o2 := by
+  induction o1 generalizing s with
+  | nil => rfl
+  | cons op o1 ih =>
+    cases op with
+    | add a e => simp only [List.cons_append, specStore]; exact ih _
+    | reload => simp only [List.cons_append, specStore]; exact ih _
+
+/-- Operations that do not add an entry for `a` leave `a`'s entry alone. -/
+theorem specStore_lookup_of_no_add (s : Store) (ops : List Op) (a : Bytes)
+    (h : ∀ e, Op.add a e ∉ ops) : (specStore s ops).lookup a = s.lookup a := by
+  induction ops generalizing s with
+  | nil => rfl
+  | cons op ops ih =>
+    have ht : ∀ e, Op.add a e ∉ ops := fun e hm => h e (List.mem_cons_of_mem _ hm)
+    cases op with
+    | add b e =>
+      simp only [specStore]
+      rw [ih _ ht]
+      apply lookup_add_other
+      intro hab
+      subst hab
+      exact h e (by simp)
+    | reload => simp only [specStore]; exact ih _ ht
+
+theorem consistent_init (c : Codec) : Sys.init.Consistent c := Or.inl ⟨rfl, fun _ => rfl⟩
+
 -- ---------------------------------------------------------------- the disconnect handler's ban
 
 def banDurationMinutes : Nat := 30
